@@ -162,7 +162,16 @@ def run_shard(spec, tier, seed):
                     if t.get('1040.24', 0.0) > base.get('1040.24', 0.0) + 0.011:
                         return f'{d} +{inc} raised total tax (line 24) from {base.get("1040.24")} to {t.get("1040.24")}'
                     return None
-                compare(f'deduction+:{inc}', ans, chk, d)
+                mech = d
+                # mechanism of a known finding: in 2021 the larger expense switches the return to itemizing, which
+                # forfeits the non-itemizer charitable deduction on line 12b
+                probe = solve_file(year, forms, ans)
+                if probe.exc is None and probe.ret is True:
+                    tp = typed(probe)
+                    if year == 2021 and not base.get('1040.itemizing') and tp.get('1040.itemizing') and base.get('1040.12b', 0.0) > 0 \
+                            and tp.get('1040.12c', 0.0) < base.get('1040.12c', 0.0):
+                        mech = 'itemizing-switch-forfeits-line-12b'
+                compare(f'deduction+:{inc}', ans, chk, mech)
             # ---- (c) each extra dollar withheld moves refund-minus-owed by one dollar
             wh = [k for k in base_ans if re.match(r'^(w-2:\d+\.box_2|1099-(int|div|r):\d+\.box_4|1040\.other_federal_withholding)$', k)]
             if '1040.other_federal_withholding' in wh and tier == 'quick':
